@@ -10,25 +10,27 @@ VARIABLES hist, scn, pos, npert, turn
 gvars == <<vars, hist, scn, pos, npert, turn>>
 
 GenEnv == {"PALOMA_FF_PIGEON_STATUS_UPDATE", "PIGEON_HEALTHCHECK_PORT"}
-GenQueries == {"pick", "assign", "simulate", "relay", "snapshot", "snapbuild", "evidence", "uptime"}
+GenQueries == {"pick", "assign", "simulate", "relay", "snapshot", "snapbuild", "evidence", "uptime", "chaininfojail", "history"}
 NoBlocks == {<<>>}
+GateVersions == {NoVersion}
 
 Scn == <<
   \* 1: cross-chain message pipeline (ties in the relayer ranking), retry after a failed relay, split evidence
   << <<"execjob", "deployuser", "status", "statusbad">>, <<"sign">>, <<"estimate">>, <<"sign", "send">>, <<"relayerr">>,
      <<"attesterr", "createjob", "tfcreate">>, <<"sign", "execjob">>, <<"estimate", "tfmint">>, <<"sign">>, <<"relayok">>,
-     <<"attestsplit", "keepalive">>, <<"banksend", "status">> >>,
+     <<"attestsplit", "keepalive">>, <<"banksend", "status", "execjob">>, <<"sign", "deployuser">> >>,
   \* 2: skyway: pool, cancel, claims; starts at 290, crosses height 300 with its 10th block (snapshot build, batch creation,
   \*    metrics, jail sweep, external balance requests) and 303
   << <<"send", "deposit">>, <<"send", "delegate">>, <<"lightsale", "feediff">>, <<"cancel", "send">>, <<"execjob">>, <<"sign">>,
      <<"estimate">>, <<"sign">>, <<"statusbad", "claims2">>, <<>>, <<"batchest", "sign">>, <<"confirm", "estimate">>, <<"batchclaim">>, <<"relayerr", "claims2">> >>,
   \* 3: paloma light nodes, token factory, valset / treasury records, user contracts
   << <<"lnregister", "tfcreate", "status">>, <<"lnauth", "tfmint", "statusbad">>, <<"extinfo", "keepalive">>, <<"feediff">>,
-     <<"uploaduser", "createjob">>, <<"deployuser", "execjob">>, <<"sign">>, <<"estimate">>, <<"fee", "sign">>, <<"relayok">>, <<"attesterr">> >>,
+     <<"uploaduser", "createjob">>, <<"deployuser", "execjob">>, <<"sign">>, <<"estimate">>, <<"fee", "sign">>, <<"relayok">>, <<"attestok">>, <<"execjob">> >>,
   \* 4: starts at 296: crosses 300 (external balance requests, pruning) and 303 (chain-info jail sweep) with CONTENTIOUS
   \*    evidence in flight: validators 0 and 1 against validator 2 (75 % of the power together, no proof with 2/3) on the
-  \*    reference block request, the balance requests, a transaction proof and an error report
-  << <<"execjob", "send">>, <<"sign">>, <<"estimate">>, <<"sign", "refsplit">>, <<"balsplit">>, <<"relayok", "statusbad">>, <<"txsplit">>,
+  \*    reference block request, the balance requests, a transaction proof and an error report; a new validator without
+  \*    any external account (it misses BOTH chains when the sweep of height 303 writes its jail reason)
+  << <<"execjob", "send", "newval">>, <<"sign", "newvalalive">>, <<"estimate">>, <<"sign", "refsplit">>, <<"balsplit">>, <<"relayok", "statusbad">>, <<"txsplit">>,
      <<"execjob">>, <<"sign">>, <<"estimate">>, <<"sign">>, <<"relayerr">>, <<"attestsplit3">>, <<"status">> >>
 >>
 \* 5: every sender-controlled field of the status update (the message whose handler looks at the process environment) with every
@@ -50,7 +52,7 @@ StepOf(l) == CASE l.act = "Restart"  -> [act |-> "Restart", args |-> [n |-> 0]]
 GInit == /\ \E s \in Scenarios :
               /\ scn = s /\ height = Start[s] /\ txlog = EmptyLog(Start[s] - Base)
               /\ hist = <<[act |-> "Init", args |-> [scn |-> s, start |-> Start[s]]]>>
-         /\ queued = "idle" /\ gate = FALSE /\ halted = FALSE /\ env = {} /\ restarts = 0 /\ nqueries = 0
+         /\ queued = "idle" /\ gate = NoGate /\ halted = FALSE /\ env = {} /\ restarts = 0 /\ nqueries = 0
          /\ last = Rec("Init", <<>>) /\ pos = 0 /\ npert = 0 /\ turn = "blk"
 
 \* perturbations that do something: no SetEnv of a set variable, no UnsetEnv of an unset one
